@@ -212,6 +212,8 @@ def r5(ctx):
     for s in [x for x in walk_shallow(f) if isinstance(x, ast.Assign) and norm(x.targets[0]) == "task_delay"]:
         which = [v for v in ("active", "inactive") if ev.may_hold(facts_at(s), {nv: v})]
         attr = [prog.try_const(m, a.args[1]) for a in calls_in(s) if norm(a.func) == "getattr" and len(a.args) >= 2]
+        # (the loader rewrites getattr(x, "name") with a constant name to x.name)
+        attr += [a.attr for a in ast.walk(s.value) if isinstance(a, ast.Attribute) and a.attr.startswith("minimum")]
         if len(which) == 1 and attr:
             got[which[0]] = attr[0]
     ctx.check("MinOnOffTask:active->minimumOnTime", got.get("active") == "minimumOnTime", where(m, f), "a new ACTIVE state must be held for Minimum_On_Time (found %r)" % got.get("active"))
